@@ -359,6 +359,11 @@ func (fr *frame) visit(instr ssa.Instruction) bool {
 		}
 		*p = in.zero(deref(instr.Type()))
 	case *ssa.MakeSlice:
+		if lt, ok := fr.get(instr.Len).(*Term); ok && !lt.IsConst() {
+			if !in.path.Branch(in.tt.Ule(lt, in.tt.BV(lt.w, 1<<20))) {
+				in.runtimePanic("makeslice: len out of range")
+			}
+		}
 		ln := in.concreteInt(fr.get(instr.Len), "make len")
 		cp := in.concreteInt(fr.get(instr.Cap), "make cap")
 		if ln < 0 || ln > 1<<24 {
